@@ -66,7 +66,79 @@ JudgeFull(e) ==
          ELSE IF Cardinality(ClosureF({ [x \in Verts(n) |-> x] }, gens)) # Cardinality(A) THEN "the returned generators do not generate the automorphism group"
          ELSE ""
 
-TInit == l = 1 /\ bad = <<>> /\ st = [segs |-> 0, sums |-> 0, relabellings |-> 0, fulls |-> 0, bfauts |-> 0, reused |-> 0, nontrivial |-> 0]
+
+(* ---------------- white box: the events of one search (hook graph.VerifCanonTracer) ---------------- *)
+(* The monitor rebuilds the search node (the individualised vertices, by level) and judges every event against the design of     *)
+(* Canon.tla: partitions are equitable ordered partitions with sorted cells, leaf certificates are the certificates of their       *)
+(* orderings, equal certificates yield automorphisms, a back-jump does not go above the common ancestor, and - when a node is      *)
+(* closed - every vertex skipped by orbit pruning has an explored sibling in its orbit under the TRUE stabiliser of the node.      *)
+(* A failure is a LEAD: the check then sweeps all relabellings of that graph and reports only a real difference.                   *)
+CellsOf(order, divs) == [k \in 1..Len(divs) |-> { order[i] : i \in ((IF k = 1 THEN 0 ELSE divs[k - 1]) + 1)..divs[k] }]
+CellSortedOK(order, divs) == \A k \in 1..Len(divs) : \A i \in ((IF k = 1 THEN 0 ELSE divs[k - 1]) + 1)..(divs[k] - 1) : order[i] < order[i + 1]
+EquitableP(G, P) == \A i, j \in 1..Len(P) : Cardinality({ Cardinality(Nbrs(G, v) \cap P[i]) : v \in P[j] }) <= 1
+(* the certificate of an ordering in the code's encoding: for position j (0-based) the sorted codes j(j-1)/2 + k of the earlier positions k adjacent to it *)
+RECURSIVE CertSeq(_, _, _)
+CertSeq(G, order, j) == IF j > Len(order) THEN <<>>
+                        ELSE SortedSeq({ ((j - 1) * (j - 2)) \div 2 + (k - 1) : k \in { q \in 1..(j - 1) : Adj(G, order[q], order[j]) } }) \o CertSeq(G, order, j + 1)
+RECURSIVE SeqCmp(_, _, _)            \* ints.Compare
+SeqCmp(a, b, i) == IF i > Len(a) /\ i > Len(b) THEN 0 ELSE IF i > Len(a) THEN -1 ELSE IF i > Len(b) THEN 1
+                   ELSE IF a[i] > b[i] THEN 1 ELSE IF a[i] < b[i] THEN -1 ELSE SeqCmp(a, b, i + 1)
+Lcp(a, b) == LET D == { i \in 1..Min({Len(a), Len(b)}) : a[i] # b[i] } IN IF D = {} THEN Min({Len(a), Len(b)}) ELSE Min(D) - 1
+MapLeaf(a, b) == [v \in { a[i] : i \in 1..Len(a) } |-> b[CHOOSE i \in 1..Len(a) : a[i] = v]]       \* a[i] -> b[i]
+NoLeafWB == [order |-> <<>>, value |-> <<>>, vs |-> <<>>]
+WB0 == [vs |-> <<>>, first |-> NoLeafWB, best |-> NoLeafWB, pruned |-> <<>>, inds |-> <<>>, lcp |-> -1, why |-> "", leaves |-> 0, prunes |-> 0]
+Cut(f, k) == [i \in 1..Min({k, Len(f)}) |-> f[i]]
+SetAt(f, k, S) == [i \in 1..Max({k, Len(f)}) |-> IF i = k THEN S ELSE IF i <= Len(f) THEN f[i] ELSE {}]
+GetAt(f, k) == IF k <= Len(f) THEN f[k] ELSE {}
+StepWB(G, A, n, x, ev) ==
+    IF x.why # "" THEN x
+    ELSE IF ev.t = "node" THEN
+         (IF ~IsPermS(ev.s, n) THEN [x EXCEPT !.why = "LEAD: order is not a permutation"]
+          ELSE IF ev.u = <<>> \/ ev.u[Len(ev.u)] # n THEN [x EXCEPT !.why = "LEAD: cell dividers do not end at n"]
+          ELSE IF ~CellSortedOK(ev.s, ev.u) THEN [x EXCEPT !.why = "LEAD: a cell of the partition is not sorted"]
+          ELSE IF ev.b = 0 /\ ~EquitableP(G, CellsOf(ev.s, ev.u)) THEN [x EXCEPT !.why = "LEAD: the refined partition is not equitable"]
+          ELSE IF \E i \in 1..Len(x.vs) : ~\E k \in 1..Len(ev.u) : CellsOf(ev.s, ev.u)[k] = {x.vs[i]} THEN [x EXCEPT !.why = "LEAD: an individualised vertex is not a singleton cell"]
+          ELSE x)
+    ELSE IF ev.t = "leaf" THEN
+         LET val == CertSeq(G, ev.s, 1)  leaf == [order |-> ev.s, value |-> ev.u, vs |-> x.vs] IN
+         IF ~IsPermS(ev.s, n) THEN [x EXCEPT !.why = "LEAD: leaf order is not a permutation"]
+         ELSE IF ev.u # val THEN [x EXCEPT !.why = "LEAD: the leaf certificate is not the certificate of its ordering"]
+         ELSE IF x.first = NoLeafWB THEN [x EXCEPT !.first = leaf, !.best = leaf, !.lcp = -1, !.leaves = @ + 1]
+         ELSE IF SeqCmp(ev.u, x.best.value, 1) = 1 THEN [x EXCEPT !.best = leaf, !.lcp = -1, !.leaves = @ + 1]
+         ELSE IF ev.u = x.best.value THEN
+              (IF MapLeaf(x.best.order, ev.s) \notin A THEN [x EXCEPT !.why = "LEAD: a leaf with the best certificate does not give an automorphism"]
+               ELSE [x EXCEPT !.lcp = Lcp(x.vs, x.best.vs), !.leaves = @ + 1])
+         ELSE IF ev.u = x.first.value THEN
+              (IF MapLeaf(x.first.order, ev.s) \notin A THEN [x EXCEPT !.why = "LEAD: a leaf with the first leaf's certificate does not give an automorphism"]
+               ELSE [x EXCEPT !.lcp = Lcp(x.vs, x.first.vs), !.leaves = @ + 1])
+         ELSE [x EXCEPT !.lcp = -1, !.leaves = @ + 1]
+    ELSE IF ev.t = "jump" THEN
+         (IF x.lcp >= 0 /\ ev.a < x.lcp + 1 THEN [x EXCEPT !.why = "LEAD: back-jump above the common ancestor of the two equivalent leaves"]
+          ELSE [x EXCEPT !.vs = Cut(@, ev.a - 1), !.pruned = Cut(@, ev.a), !.inds = Cut(@, ev.a), !.lcp = -1])
+    ELSE IF ev.t = "prune" THEN [x EXCEPT !.pruned = SetAt(Cut(@, ev.a + 1), ev.a + 1, GetAt(@, ev.a + 1) \cup {ev.s[1]}), !.prunes = @ + 1]
+    ELSE IF ev.t = "ind" THEN [x EXCEPT !.vs = Append(Cut(@, ev.a), ev.s[1]),
+                                        !.inds = SetAt(Cut(@, ev.a + 1), ev.a + 1, GetAt(@, ev.a + 1) \cup {ev.s[1]}),
+                                        !.pruned = Cut(@, ev.a + 1)]
+    ELSE IF ev.t = "close" THEN
+         LET nu == Cut(x.vs, ev.a)
+             stab == { f \in A : \A i \in 1..Len(nu) : f[nu[i]] = nu[i] }
+             lost == { v \in GetAt(x.pruned, ev.a + 1) : ~\E u \in GetAt(x.inds, ev.a + 1) : \E f \in stab : f[u] = v } IN
+         IF lost # {} THEN [x EXCEPT !.why = "LEAD: a vertex was skipped by orbit pruning although no explored sibling lies in its orbit under the stabiliser of the node"]
+         ELSE [x EXCEPT !.vs = nu, !.pruned = Cut(@, ev.a), !.inds = Cut(@, ev.a)]
+    ELSE x
+RECURSIVE RunWB(_, _, _, _, _, _)
+RunWB(G, A, n, x, evs, i) == IF i > Len(evs) THEN x ELSE RunWB(G, A, n, StepWB(G, A, n, x, evs[i]), evs, i + 1)
+JudgeWB(e) ==
+    LET G == RelabelS(GofJ(e.g), e.pi)  n == G.n  A == AutF(G, <<>>) IN
+    IF e.res # "ok" THEN e.res
+    ELSE IF n = 0 \/ G.E = {} THEN ""
+    ELSE LET x == RunWB(G, A, n, WB0, e.evs, 1) IN
+         IF x.why # "" THEN x.why
+         ELSE IF x.best = NoLeafWB THEN "LEAD: the search visited no leaf"
+         ELSE IF e.perm # x.best.order THEN "LEAD: the returned permutation is not the ordering of the best leaf"
+         ELSE ""
+
+TInit == l = 1 /\ bad = <<>> /\ st = [segs |-> 0, sums |-> 0, relabellings |-> 0, fulls |-> 0, bfauts |-> 0, reused |-> 0, nontrivial |-> 0, wb |-> 0, wbevents |-> 0]
 Flag(why) == bad' = IF why = "" THEN bad ELSE Note(bad, [seg |-> Ev.seg, l |-> l, why |-> why \o " [" \o Ev.ev \o "]"])
 TStep ==
     /\ l <= NEvents /\ l' = l + 1
@@ -74,6 +146,9 @@ TStep ==
        ELSE IF Ev.ev = "CanonSum"
        THEN /\ Flag(JudgeSum(Ev))
             /\ st' = [st EXCEPT !.sums = @ + 1, !.relabellings = @ + Ev.tried, !.nontrivial = @ + (IF Ev.nt THEN 1 ELSE 0)]
+       ELSE IF Ev.ev = "CanonWB"
+       THEN /\ Flag(JudgeWB(Ev))
+            /\ st' = [st EXCEPT !.wb = @ + 1, !.wbevents = @ + Len(Ev.evs)]
        ELSE /\ Flag(JudgeFull(Ev))
             /\ st' = [st EXCEPT !.fulls = @ + 1, !.bfauts = @ + (IF Ev.bf THEN 1 ELSE 0), !.reused = @ + (IF Ev.reused THEN 1 ELSE 0),
                                 !.nontrivial = @ + (IF Len(Ev.gens) > 0 THEN 1 ELSE 0)]
